@@ -27,7 +27,9 @@ func init() {
 		Work: func(c *mc.Ctx) {
 			enumItemsCfg(c, ref.Universe(c.Tier), func(*ref.T) []ref.Cfg { return []ref.Cfg{{}} }, c13Case)
 		},
-		Post: func(a *mc.Agg) []string { return needDims(a, "pos:top", "pos:field", "pos:elem", "pos:mapval", "pos:mapkey", "desc:plenc-roundtrip", "desc:json-roundtrip") },
+		Post: func(a *mc.Agg) []string {
+			return needDims(a, "pos:top", "pos:field", "pos:elem", "pos:mapval", "pos:mapkey", "desc:plenc-roundtrip", "desc:json-roundtrip")
+		},
 	})
 }
 
